@@ -934,6 +934,21 @@ class TestResult(unittest.TestResult):
         return BufferedStandardStream(
             io.BytesIO(), newline='\n', write_through=True)
 
+    def _drainBufferedStdStream(self, attr):
+        """Return and forget what has been written to a buffered stream."""
+        stream = getattr(self, attr)
+        try:
+            value = stream.getvalue()
+            stream.seek(0)
+            stream.truncate(0)
+        except ValueError:
+            # The test closed (or detached) the stream it found in
+            # ``sys.stdout`` / ``sys.stderr``: what it had written is gone
+            # with it; the next test gets a new one.
+            value = ''
+            setattr(self, attr, self._makeBufferedStdStream())
+        return value
+
     def _setUpStdStreams(self):
         """Set up buffered standard streams, if requested."""
         if self.options.buffer:
@@ -949,15 +964,10 @@ class TestResult(unittest.TestResult):
         if self.options.buffer and self._stdout_buffer is not None:
             # Read our own buffers, not ``sys.stdout``: an earlier result
             # event of the same test has already restored the streams.
-            stdout = self._stdout_buffer.getvalue()
-            stderr = self._stderr_buffer.getvalue()
             sys.stdout = self._original_stdout
             sys.stderr = self._original_stderr
-            self._stdout_buffer.seek(0)
-            self._stdout_buffer.truncate(0)
-            self._stderr_buffer.seek(0)
-            self._stderr_buffer.truncate(0)
-            return stdout, stderr
+            return (self._drainBufferedStdStream('_stdout_buffer'),
+                    self._drainBufferedStdStream('_stderr_buffer'))
         else:
             return None, None
 
